@@ -3,6 +3,7 @@ import AaVerif.Generated.Chains
 import AaVerif.Flags
 import AaVerif.Filter
 import AaVerif.FilterLemmas
+import AaVerif.FilterPara
 import AaVerif.Generated.Dists
 import AaVerif.Generated.AaTables
 import AaVerif.Aa.Order
@@ -80,7 +81,7 @@ def suiteFilterSpec (f : List String) : String :=
   | [dist, abi, ver, text] =>
     let t := unesc text
     b2s (Filter.wf t) ++ "\t" ++ esc (Filter.specText (mkTarget (String.ofList (unesc dist)) abi ver) t)
-      ++ "\t" ++ b2s (Filter.wfInlineSpec (Lines.splitNl t))
+      ++ "\t" ++ b2s (Filter.wfInlineSpec (Lines.splitNl t)) ++ "\t" ++ b2s (Filter.wfText t)
   | _ => "err\tbad-op"
 
 def T := Generated.aaTables
